@@ -134,7 +134,7 @@ def run_property(pid, tier, seed, replay=None):
     for k, what in known_seen.items():
         say("KNOWN-FINDING: property=%s %s [%s]" % (pid, what, k))
     for (msg, path, has_input) in violations:
-        say("VIOLATION property=%s replay=%s %s%s" % (pid, path, "" if has_input else "", "" if has_input else "no-failing-input-found"))
+        say(("VIOLATION property=%s replay=%s" % (pid, path)) + ("" if has_input else " no-failing-input-found"))
     n_thm = len(audit["theorems"])
     coverage = {
         "obligations": max(1, n_thm),
